@@ -997,13 +997,18 @@ let judge_equal4 f =
   let c04 = if st <> "ok" || st2 <> "ok" then F (st ^ "/" ^ st2) else P in
   let c19 =
     match parse_s a, parse_s b with
-    | Some ta, Some tb when root_container ta && root_container tb && tnodup ta && tnodup tb
+    | Some ta, Some tb when root_container ta && root_container tb
                             && not (contains a "\\") && not (contains b "\\") && not (has_number_alias [ta; tb]) ->
-      let spec = jeq (den ta) (den tb) && jeq (den tb) (den ta) in
+      (* repeated member names: the decoder keeps the last value of a name (Go map), as in v5 *)
+      let x = dedup_o (den ta) and y = dedup_o (den tb) in
+      let spec = jeq x y && jeq y x in
       if st <> "ok" then F "panic" else if res <> spec then F (Printf.sprintf "Equal (legacy)=%b, structural equality=%b" res spec)
       else if res <> res2 then F "not symmetric" else P
     | _ -> S "domain" in
-  out_line id "equal4" ["C04", c04; "C19", c19] ""
+  let fid = (match api_equal4 (bytes_of_string a) (bytes_of_string b) with
+      | Some r -> if st = "ok" && r = res then P else D "model differs"
+      | None -> S "ill-formed") in
+  out_line id "equal4" ["C04", c04; "C19", c19; "FID", fid] ""
 
 (* ==================== BEGIN dump mode (tools/coqeval.py; DESIGN 7: extraction cross-check) ====================
    `oracle -dump`: instead of verdicts, print for each case line of a supported kind ONE line
